@@ -362,3 +362,29 @@ def sum_of(prog, te, t):
         s = _replace(s, lambda x: is_payload(x) and mir.is_call(strip(x[1][1]), "next"), ELEM)
         return coll, s
     return None
+
+
+def local_bodies(prog, fn, ok=None, depth=2):
+    """fn, the closures nested in it, and the local helpers it calls for which ok(helper) holds (with their closures),
+    to the given call depth — the bodies a maintainer may spread one function's logic over"""
+    ok = ok or (lambda h: h.impl_self == fn.impl_self and h.impl_self is not None)
+    seen, out = set(), []
+
+    def add(f, d):
+        if id(f) in seen:
+            return
+        seen.add(id(f))
+        out.append(f)
+        for g in prog.fns:
+            if g.unit == f.unit and g.npath.startswith(f.npath + "::{closure") and id(g) not in seen:
+                add(g, d)
+        if d <= 0:
+            return
+        for cs in f.terms.calls:
+            c = cs.callee
+            if c.local or getattr(c, "res_local", False):
+                for h in prog.resolve(c):
+                    if "{closure" not in h.npath and h.unit == f.unit and ok(h):
+                        add(h, d - 1)
+    add(fn, depth)
+    return out
